@@ -260,11 +260,37 @@ def c04(tier, rep):
                 if n >= 3:
                     p.branches[1] = dsl.Branch(dsl.O(init), list(p.branches[1].items) + [dsl.Op(op, [dsl.O("|v: i32| { ev(\"t.9.f\", &v); %s }" % stepv)], deferred=True)])
                 progs.append(fp.to_prog("twins/%s/%d/%d" % (mac, n, d), p, [[0]], cmp="Full" if not is_async else None))
+    # wide profiles: the arity thresholds of tuples / index formatting / futures' join macros (10, 12, 13, 17, 33 branches; deepest branch
+    # first / in the middle / last; depths cycling). Tuples above 12 elements have no Debug: those run with a handler only (it
+    # receives every value and returns them as a Vec)
+    wide = [tuple(1 + (b % 3) for b in range(10)), tuple(1 + ((b + 1) % 3) for b in range(12)), (1,) * 6 + (3,) + (2,) * 6,
+            (3,) + (2, 1) * 8, (1, 2) * 16 + (3,)]
+    if tier != "quick":
+        wide += [tuple(1 + (b % 4) for b in range(24)), (2,) * 20 + (4,) + (1,) * 19, tuple(1 + ((5 * b) % 3) for b in range(64))]
+    for ds in wide:
+        n = len(ds)
+        for mac in KINDS8:
+            is_try = mac.startswith("try")
+            modes = [("handler", dict(handler="map" if is_try else "then")),
+                     ("letalt", dict(lets=[(b, b % 4 == 0) for b in range(0, n, 2)], handler=("and_then" if is_try else "then")))]
+            if n <= 12:
+                modes += [("plain", dict()), ("letall", dict(lets=[(b, b % 2 == 1) for b in range(n)]))]
+            for mname, kw in modes:
+                p = fp.build(mac, ds, **kw)
+                rows = fp.offset_rows()
+                if is_try:
+                    # one row per fault slot (wide programs share slots: several positions fail together, reference alike)
+                    for sl in sorted(set(fp.fail_slots(ds))):
+                        r = [0] * (fp.OFF + 1)
+                        r[sl] = 1
+                        rows.append(r)
+                progs.append(fp.to_prog("wide/%s/n%d-%s/%s" % (mac, n, fp.pname(ds)[:16], mname), p, rows))
     progs += mirrored_recovery_programs()
     fr = e2.run_family("c04", progs, extra_header=fp.HEADER)
     judge_family(rep, fr)
     rep.set("profiles", len(profs))
-    rep.set("rule", "mirrored recovery operands: 2-4 branches whose error-side operators (`!>`, `<=`, `<|`) carry BLOCK operands with branch-specific constants at the same action index of the same step, all 8 kinds, every subset of failing branches: position i must show branch i's own recovery value; %s x 8 macro kinds x {no handler, handler, let on every branch, let on alternate branches + handler}; branch i starts at 100*i+offset and adds 1 per step; result (and handler arguments) compared with the reference tuple; distinct = program, non-trivial = trace non-empty and 2 distinct outcomes over the offset rows" % bound)
+    rep.set("wide_profiles", [len(w) for w in wide])
+    rep.set("rule", "wide profiles (10, 12, 13, 17, 33 branches; thorough + 24, 40, 64; depths cycling, deepest branch first / in the middle / last) x 8 kinds x {handler receiving every value, let on alternate branches + handler; n <= 12 also plain / let on every branch}, try kinds additionally with one row per fault slot; mirrored recovery operands: 2-4 branches whose error-side operators (`!>`, `<=`, `<|`) carry BLOCK operands with branch-specific constants at the same action index of the same step, all 8 kinds, every subset of failing branches: position i must show branch i's own recovery value; %s x 8 macro kinds x {no handler, handler, let on every branch, let on alternate branches + handler}; branch i starts at 100*i+offset and adds 1 per step; result (and handler arguments) compared with the reference tuple; distinct = program, non-trivial = trace non-empty and 2 distinct outcomes over the offset rows" % bound)
     sample_family(rep, progs, fr)
 
 
